@@ -24,7 +24,7 @@ from .. import units, guards, effects
 MANIFEST = {
     "level": "other",
     "technique": "static analysis: term matching for the reflection, literal-table audit of the abridged series against the full series with amplitude-derived tolerances, extraction of the effective frame matrices from symbolically evaluated code and orthogonality check (numeric 1e-6 / symbolic), non-interference (slicing) of the rotation on the observation epoch, polynomial extraction and exact comparison with the IAU obliquity cubic, triangle-inequality bound over the nutation tables; the Angle / Epoch operator semantics the evaluator assumes are verified (operator conformance, operands never written)",
-    "text": "Reflection, orthogonality of every frame matrix as actually applied by the code (a clobbered in-place product is not orthogonal), independence of the equinox rotation from the observation time, frequency agreement of the abridged J2000 series with the full one, the obliquity polynomial and the nutation bounds are decided from source and tables for all epochs. The low-accuracy solar longitude, radius vector and apparent longitude are shown to be Meeus' ch. 25 expressions (trigonometric normal form; the book states 0.01 degree, which is what leaves room inside the property's 0.02 degree against VSOP87) - a term that is not identically the recipe is reported only with an epoch in 1800-2200 at which the two expressions differ by more than 0.005 degree. The 2 arcsec / 1e-5 AU agreement of positions across frames is numerical and not decided beyond these necessary conditions.",
+    "text": "Reflection, orthogonality of every frame matrix as actually applied by the code (a clobbered in-place product is not orthogonal), independence of the equinox rotation from the observation time, frequency agreement of the abridged J2000 series with the full one, the obliquity polynomial and the nutation bounds are decided from source and tables for all epochs. The low-accuracy solar longitude, radius vector and apparent longitude are shown to be Meeus' ch. 25 expressions (trigonometric normal form; the book states 0.01 degree, which is what leaves room inside the property's 0.02 degree against VSOP87) - a term that is not identically the recipe is reported only with an epoch in 1800-2200 at which the two expressions differ by more than 0.005 degree. The 2 arcsec / 1e-5 AU agreement of positions across frames is numerical and not decided beyond these necessary conditions. The Moon's mean node on which the property builds its main-term model is compared with the node argument of the nutation series itself over years -2000..4000 (agreement to 0.02 degree on today's tree).",
     "note": "Trusted oracles: IAU 1976 obliquity cubic; 1 rad = 206264.806 arcsec. Undecided: frame agreement to 2 arcsec, norm of rectangular coordinates (the mean-equinox variant drops cos(beta)); the 0.01 degree accuracy of the low-accuracy recipe itself is the book's statement (trusted).",
 }
 ARCSEC = 206264.806247
